@@ -89,10 +89,9 @@ vt_run(stream, W, Ids, N, Bad) :-
 % (the batch may have lost synchronisation after an earlier broken text) the driver re-runs the term through a
 % file of its own (vt_single).
 vt_confirm(_, _, _, _, werr(X), werr(X)) :- !.
-vt_confirm(W, Os, Mode, Id, R0, R) :-
+vt_confirm(_, Os, Mode, Id, R0, R) :-
     vt_item(Id, Mode, T, E),
-    ( W == writeq -> W1 = chars_n ; W1 = chars_o ),
-    vt_chars_one(W1, Os, T, E, R1),
+    vt_chars_one(chars_q, Os, T, E, R1),
     (  R0 = diff(batch, G), R1 = diff(Cs, G) -> R = diff(Cs, G)
     ;  R0 = rerr(batch, X), R1 = rerr(Cs, X) -> R = rerr(Cs, X)
     ;  R = R0 ).
